@@ -362,7 +362,8 @@ def gen_lite(rnd, i):
     for b in range(1, 15):
         if rnd.random() < 0.6:
             user[str(b)] = rl(rnd, 16) if rnd.random() < 0.5 else [rnd.choice([0, 0x20, 0xFF])] * 16
-    case = dict(fam="lite", kind=kind, user=user, idm=[rnd.choice([0x01, 0x02, 0x03])] + rl(rnd, 7), sensf_sys=rnd.random() < 0.5)
+    idm = [rnd.choice([0x01, 0x02, 0x03]), rnd.randrange(0xFE)] + rl(rnd, 6)        # (01 FE .. would be an NFC-DEP target, not a tag)
+    case = dict(fam="lite", kind=kind, user=user, idm=idm, sensf_sys=rnd.random() < 0.5)
     if rnd.random() < 0.4:
         case["mc"] = [rnd.choice([0xFF, 0x01, 0x00, 0xFE]), rnd.choice([0xFF, 0x7F, 0x00]), rnd.choice([0xFF, 0x00]), rnd.choice([0, 1])]
     return case
